@@ -12,6 +12,7 @@ mod eng_rdf;
 mod eng_sched;
 mod eng_snap;
 mod eng_store;
+mod eng_twin;
 mod eng_txm;
 mod eng_vec;
 mod fw;
